@@ -1492,3 +1492,4 @@ benign_patch("refactor_s11_20", "benign/set11_20_mem_remove_file_is_none_early_r
 mut("revert_D23", ["C09"], "PROG-2|db::DB::make_room_for_write", patch="revert_D23_empty_memtable_has_no_room.diff", note="tiny max_memtable_size: the first write rotates empty memtables for ever (defect D23)")
 mut("revert_D10", ["C09"], "ORD-12|<db::DB as std::ops::Drop>::drop|the-worker-is-stopped-whoever-else-holds-it", patch="revert_D10_drop_unwraps_arc_get_mut.diff", note="closing with a live iterator panics in Drop (defect D10)")
 mut("revert_D25", ["C15", "C13"], "GRD-37|tables::table::Table::read_block_from_disk", patch="revert_D25_block_handle_unchecked.diff", note="a damaged footer handle aborts the process in the allocator (defect D25)")
+mut("revert_D24", ["C15"], "MAN-2|logs::LogReader::read_record", patch="revert_D24_strict_reader_skips_orphans.diff", note="the manifest reader skips a fragment without a start (defect D24)")
